@@ -17,6 +17,7 @@ var c13CatalogCopy = map[string]string{
 }
 
 func c13(c *Ctx) {
+	c13EngineStateAtCommit(c, "C13.8/statements-write-no-engine-wide-state")
 	// a transaction takes its catalog at NewTx and its data snapshots lazily: what keeps the two consistent is the
 	// mandatory-MVCC floor (the last catalog-changing tx), applied to EVERY snapshot a transaction takes, read-only or
 	// not (analysis shared with C05.4)
@@ -307,4 +308,65 @@ func idxAmong(in ssa.Instruction, p sitePred) int {
 		}
 	}
 	return -1
+}
+
+// c13EngineStateAtCommit: what a statement does stays inside its transaction until COMMIT and vanishes with ROLLBACK.
+// The engine keeps views (and CTE names) in a map shared by every session (Engine.tableResolvers) and sequences in
+// another (Engine.sequences). Whoever writes such a map outside the engine's set-up and catalog loading does it while a
+// statement is executed: the effect is visible to every session before COMMIT, survives ROLLBACK, and the unsynchronised
+// map is shared with concurrent sessions. Writers are: direct map updates / deletes, and calls of the engine's mutator
+// helpers (registerTableResolver, CreateSequence, DropSequence).
+func c13EngineStateAtCommit(c *Ctx, r string) {
+	setUp := map[string]string{
+		"embedded/sql.NewEngine":                       "engine construction",
+		"embedded/sql.(*Engine).loadViews":             "catalog loading",
+		"embedded/sql.(*Engine).loadSequences":         "catalog loading",
+		"embedded/sql.(*Engine).registerTableResolver": "the mutator itself (its callers are examined)",
+		"embedded/sql.(*Engine).CreateSequence":        "the mutator itself (its callers are examined)",
+		"embedded/sql.(*Engine).DropSequence":          "the mutator itself (its callers are examined)",
+		"embedded/sql.(*Engine).RegisterTableResolver": "public registration API used at set-up",
+	}
+	mutators := callTo("embedded/sql.(*Engine).registerTableResolver", "embedded/sql.(*Engine).CreateSequence", "embedded/sql.(*Engine).DropSequence")
+	n := 0
+	for _, f := range c.allFns {
+		if !fnInPkgs(f, []string{"embedded/sql"}) || len(f.Blocks) == 0 {
+			continue
+		}
+		top := fnName(topFn(f))
+		per := map[string]int{}
+		allInstrs(f, false, func(in ssa.Instruction) {
+			what, fld := "", ""
+			switch x := in.(type) {
+			case *ssa.MapUpdate:
+				if fl, _ := fieldOf(x.Map); fl == "Engine.tableResolvers" || fl == "Engine.sequences" {
+					what, fld = "write", fl
+				}
+			case *ssa.Call:
+				if b, ok := x.Call.Value.(*ssa.Builtin); ok && b.Name() == "delete" && len(x.Call.Args) > 0 {
+					if fl, _ := fieldOf(x.Call.Args[0]); fl == "Engine.tableResolvers" || fl == "Engine.sequences" {
+						what, fld = "delete", fl
+					}
+				}
+			}
+			if what == "" && mutators(in) {
+				what, fld = lastSeg(calleeName(callOf(in))), "Engine.tableResolvers"
+				if strings.Contains(what, "Sequence") {
+					fld = "Engine.sequences"
+				}
+			}
+			if what == "" {
+				return
+			}
+			n++
+			if reason, ok := setUp[top]; ok {
+				c.okTrivial(r, top+":"+fld, c.pos(in.Pos()), reason)
+				return
+			}
+			per[fld]++
+			c.fail(r, fmt.Sprintf("%s:%s#%d", top, fld, per[fld]), c.pos(in.Pos()), fmt.Sprintf("%s of the engine-wide %s during statement execution: the effect is visible to every session before COMMIT and survives ROLLBACK", what, fld))
+		})
+	}
+	if n < 6 {
+		c.undecided(r, "floor", fmt.Sprintf("%d writes of the engine-wide view / sequence maps found", n))
+	}
 }
